@@ -42,7 +42,10 @@ STREAMS = [
     [[(1, 1, 1), (2, 2, 2)], [(3, 3, 3)]],
 ]
 DESTS = ["new-file", "new-group", "empty-group", "root"]
-NEIGHBOUR_SKIP = {"new-file": None, "new-group": "/new", "empty-group": "/emptygrp", "root": "/"}
+# destinations that are a LINK to a neighbouring collection (/n1): creation there replaces the link, the neighbour stays what it was.
+# Such a destination did hold a cooler, so only the neighbour clause of the oracle applies.
+LINK_DESTS = ["over-hard-link", "over-soft-link"]
+NEIGHBOUR_SKIP = {"new-file": None, "new-group": "/new", "empty-group": "/emptygrp", "root": "/", "over-hard-link": "/lnk", "over-soft-link": "/lnk"}
 
 
 def px(rows):
@@ -82,6 +85,12 @@ def prepare(dest, workdir):
         return f, f, "w", None
     shutil.copy(base_file(), f)
     grp = NEIGHBOUR_SKIP[dest]
+    if dest in LINK_DESTS:
+        with h5py.File(f, "r+") as h:
+            if dest == "over-hard-link":
+                h["/lnk"] = h["/n1"]
+            else:
+                h["/lnk"] = h5py.SoftLink("/n1")
     return f, f + "::" + grp, "a", neighbours(f, dest)
 
 
@@ -121,7 +130,7 @@ def after(R, inner, dest, f, uri, before, complete_pix, raised, must_raise, symm
     except Exception as e:
         R.mismatch("list_coolers-raises", inner, f"{type(e).__name__}: {e!s:.100}")
         listed = False
-    if rec or listed:
+    if (rec or listed) and dest not in LINK_DESTS:
         # recognised => complete
         R.cls("recognised-after-disturbance")
         # the statement is about stops "at any chunk"; a fault that lands between two attribute writes of the final update (after the
@@ -149,8 +158,10 @@ def units(tier):
     th = tier == "thorough"
     ns = 6 if th else 3
     for s in range(ns):
-        for dest in DESTS:
+        for dest in DESTS + LINK_DESTS:
             for producer in ("ordered", "unordered"):
+                if dest in LINK_DESTS and s and not th:
+                    continue
                 yield {"leg": "invalid", "stream": s, "dest": dest, "producer": producer}
                 yield {"leg": "iterfail", "stream": s, "dest": dest, "producer": producer}
     # square storage: out-of-range ids and duplicates must be rejected there too (no upper-triangle check to fall back on)
@@ -189,7 +200,12 @@ def _invalid(R, unit, only):
             continue        # a lower-triangle pixel is valid in square storage
         for ci, chunk in enumerate(stream):
             for pos in range(len(chunk) + 1):
-                for side in ((0, 1) if kind in ("bin-too-large", "negative-bin") else (0,)):
+                # side: which bin id is bad; for the duplicate kinds: WHICH record of the chunk is repeated at position pos - next to
+                # its original (side 0) or anywhere else in the chunk (side = 1 + index of the record)
+                sides = (0, 1) if kind in ("bin-too-large", "negative-bin") else (0,)
+                if kind in ("duplicate", "duplicate-other-value"):
+                    sides = (0,) + tuple(1 + q for q in range(len(chunk)) if q not in (pos - 1, pos, min(pos, len(chunk) - 1)))
+                for side in sides:
                     kk += 1
                     inner = {"kind": kind, "chunk": ci, "pos": pos, "side": side}
                     if only is not None and only != inner:
@@ -201,10 +217,14 @@ def _invalid(R, unit, only):
                     elif kind == "lower-triangle":
                         bad = (3, 1, 1)
                     elif kind == "duplicate":
-                        bad = chunk[min(pos, len(chunk) - 1)]
+                        bad = chunk[min(pos, len(chunk) - 1) if side == 0 else side - 1]
+                        if side:
+                            R.cls("invalid:duplicate-apart")
                     else:
-                        src = chunk[min(pos, len(chunk) - 1)]       # the same pixel again, with a different value
+                        src = chunk[min(pos, len(chunk) - 1) if side == 0 else side - 1]       # the same pixel again, with a different value
                         bad = (src[0], src[1], src[2] + 5)
+                        if side:
+                            R.cls("invalid:duplicate-apart")
                     rows = chunk[:pos] + [bad] + chunk[pos:]
                     chunks = [px(c) for c in stream[:ci]] + [px(rows)] + [px(c) for c in stream[ci + 1:]]
                     R.order = (R.order[0], kk)
